@@ -17,7 +17,7 @@ EXTENDS Integers, Sequences, FiniteSets, TLC, Json, TraceData
 VARIABLES store, flt, ks, pc, stage, allowed, pos, mi, ys, ordered, ans, path, tid, l, bad, paths
 
 K == INSTANCE KvScan WITH Universe <- TD_Universe, OneCharNames <- TD_OneCharNames, MaxLimit <- TD_MaxLimit, PkSym <- TD_PkSym,
-                          IdSym <- TD_IdSym, Chars <- TD_Chars, Stores <- {}, Filters <- {}
+                          IdSym <- TD_IdSym, Chars <- TD_Chars, Stores <- {}, Filters <- {}, SeekTop <- 100000, RangeInclusive <- TRUE
 QQ == INSTANCE Query WITH Universe <- TD_Universe, OneCharNames <- TD_OneCharNames, MaxLimit <- TD_MaxLimit
 
 Trace == Traces[tid]
